@@ -462,3 +462,35 @@ def record_build(idx, text, used, w, policy="drop", **kw):
         return ev, dm
     ev["views"] = bool(views)
     return ev, dm
+
+
+def record_newdata(idx, text, used, w, dm, rng):
+    """Evaluate the built design on a frame made of all rows of the training frame, reordered and
+    partly repeated, and record the result as a build event over that frame (no response part):
+    the labels of the training design must describe the new matrices cell by cell as well."""
+    import copy
+
+    perm = list(range(w.n)) + [rng.randrange(w.n) for _ in range(rng.randint(0, 3))]
+    rng.shuffle(perm)
+    w2 = World()
+    w2.n = len(perm)
+    w2.names, w2.scale, w2.sum_cols, w2.namespace = w.names, w.scale, w.sum_cols, w.namespace
+    w2.cols = {k: dict(c, v=[c["v"][i] for i in perm]) for k, c in w.cols.items()}
+    w2.df = w.df.iloc[perm].reset_index(drop=True) if rng.random() < 0.5 else w.df.iloc[perm]
+    ev = {"id": idx, "kind": "build", "frame": {"n": w2.n, "cols": w2.cols}, "used": used, "policy": "drop", "status": "ok",
+          "common": dict(EMPTY), "group": dict(EMPTY), "resp": dict(EMPTY), "views": True, "resp_expected": False, "tag": "new_data"}
+    try:
+        common = dm.common.evaluate_new_data(w2.df) if dm.common is not None else None
+        group = dm.group.evaluate_new_data(w2.df) if dm.group is not None else None
+    except Exception as e:  # pylint: disable=broad-except
+        ev["status"] = type(e).__name__
+        return ev, e
+    try:
+        views = True
+        for part, mat in (("common", common), ("group", group)):
+            ev[part], v = matrix_event(mat, w2, part)
+            views = views and v
+        ev["views"] = bool(views)
+    except Exception as e:  # pylint: disable=broad-except
+        ev["status"] = "projection:" + type(e).__name__ + ":" + str(e)[:80]
+    return ev, None
